@@ -38,7 +38,7 @@ func init() {
 		"add": 6, "remove": 5, "addmany": 10, "addrange": 8, "removerange": 6, "flip": 5, "clear": 1,
 		"runopt": 4, "clone": 4, "detach": 1, "setcow": 3,
 		"binop": 6, "ibinop": 6, "card": 2, "flipstatic": 2, "addoffset": 2, "agg": 3, "andany": 1, "gc": 1,
-		"thresh": 4, "pair": 3, "cowclone": 2, "parlist": 0, "erode": 1, "zcpair": 0, "wide": 1, "tinysubset": 1, "gap": 3, "reuse": 0, "reuse64": 0, "capflip": 1, "par64": 0, "offedge": 1, "offedge2": 0, "offedge3": 0, "magic64": 0, "cow64": 0, "shrinkcow": 1, "breakeven": 2,
+		"thresh": 4, "pair": 3, "cowclone": 2, "parlist": 0, "erode": 1, "zcpair": 0, "wide": 1, "tinysubset": 1, "gap": 3, "reuse": 0, "reuse64": 0, "capflip": 1, "par64": 0, "offedge": 1, "offedge2": 0, "offedge3": 0, "magic64": 0, "cow64": 0, "shrinkcow": 1, "breakeven": 2, "runedge": 1, "allkeys": 0,
 	}
 	with := func(over map[string]int) *profile {
 		m := map[string]int{}
@@ -88,15 +88,15 @@ func init() {
 	profiles["C04"] = with(map[string]int{"cur-open": 14, "cur-step": 45, "iterfn": 14, "runopt": 6, "binop": 2, "ibinop": 2, "agg": 0, "andany": 0, "flipstatic": 0, "addoffset": 0})
 	profiles["C05"] = with(map[string]int{"reuse": 8, "wide": 3, "rt": 30, "wfault": 8, "mustread": 3, "runopt": 8, "agg": 1, "unmap": 2})
 	profiles["C10"] = with(map[string]int{"reuse": 2, "trunc": 10, "corrupt": 45, "rfault": 4, "mustread": 5, "rt": 3, "runopt": 8, "unmap": 1})
-	profiles["C13"] = with(map[string]int{"wide": 4, "freeze": 30, "detach": 8, "add": 6, "addmany": 6, "runopt": 8, "unmap": 3, "gc": 6})
+	profiles["C13"] = with(map[string]int{"allkeys": 1, "wide": 4, "freeze": 30, "detach": 8, "add": 6, "addmany": 6, "runopt": 8, "unmap": 3, "gc": 6})
 	profiles["C08"] = with(map[string]int{"rt": 14, "freeze": 10, "unmap": 8, "detach": 6, "gc": 5, "dense": 3, "clone": 8, "binop": 10, "ibinop": 10, "agg": 5, "setcow": 1,
 		"zcpair": 8, "pair": 2, "thresh": 2,
 		"rt64": 4, "addmany64": 3, "add64": 3, "remove64": 2, "addrange64": 2, "removerange64": 2, "flip64": 1, "binop64": 4, "maint64": 2})
 	profiles["C01"] = with(map[string]int{"binop": 20, "ibinop": 20, "card": 8, "runopt": 6, "pair": 16})
-	profiles["C02"] = with(map[string]int{"shrinkcow": 3, "add": 12, "remove": 10, "addmany": 14, "addrange": 14, "removerange": 12, "flip": 10, "binop": 2, "ibinop": 2, "agg": 1, "thresh": 10, "clone": 6, "setcow": 5})
+	profiles["C02"] = with(map[string]int{"shrinkcow": 3, "runedge": 4, "add": 12, "remove": 10, "addmany": 14, "addrange": 14, "removerange": 12, "flip": 10, "binop": 2, "ibinop": 2, "agg": 1, "thresh": 10, "clone": 6, "setcow": 5})
 	profiles["C07"] = with(map[string]int{"cow64": 6, "shrinkcow": 3, "add64": 4, "remove64": 3, "addmany64": 5, "addrange64": 4, "removerange64": 3, "flip64": 2, "maint64": 10, "binop64": 14, "flipstatic64": 3, "agg64": 5, "from32": 1,
 		"parlist": 3, "cowclone": 8, "clone": 8, "setcow": 8, "binop": 10, "ibinop": 10, "agg": 10, "flipstatic": 4, "addoffset": 4, "andany": 3})
-	profiles["C09"] = with(map[string]int{"capflip": 5, "parlist": 6, "offedge": 6, "breakeven": 10, "gap": 10, "tinysubset": 5, "erode": 4, "thresh": 8, "pair": 12, "runopt": 8, "agg": 8, "andany": 5, "addoffset": 6, "flipstatic": 5, "removerange": 10, "flip": 8})
+	profiles["C09"] = with(map[string]int{"capflip": 5, "parlist": 6, "offedge": 6, "breakeven": 10, "runedge": 6, "allkeys": 1, "gap": 10, "tinysubset": 5, "erode": 4, "thresh": 8, "pair": 12, "runopt": 8, "agg": 8, "andany": 5, "addoffset": 6, "flipstatic": 5, "removerange": 10, "flip": 8})
 	profiles["C14"] = profiles["C09"]
 	profiles["C11"] = with(map[string]int{"tinysubset": 6, "agg": 25, "andany": 8, "runopt": 5, "parlist": 6, "cowclone": 4})
 	profiles["C16"] = with(map[string]int{"flipstatic": 15, "addoffset": 20, "offedge": 4, "densesize": 6, "runopt": 6, "dense": 14, "unmap": 2})
